@@ -216,6 +216,12 @@ class EpochRules:
                             lt = (o != neg)
                         elif op in ('==', '>='):
                             lt = ((not o) != neg)
+                    elif a == v and b == cur and lt is None:
+                        # pin < current epoch: pins equal to the current epoch are in the list anyway, the sentinel is not below it
+                        if op == '<':
+                            lt = (o != neg)
+                        elif op == '>=':
+                            lt = ((not o) != neg)
                 if lt is None:
                     sink.unsup('C04.SCAN', 'sentinel test', self.loc(f, same[0]['line']), 'comparison of the pin with the sentinel not recognised')
                     continue
@@ -327,24 +333,28 @@ class EpochRules:
         for p in self.paths(f):
             gid = [e for e in p.events if e['kind'] == 'call' and e.get('name', '').endswith('IDManager::GetThreadID')]
             ctor = [e for e in p.events if e['kind'] == 'construct' and e['record'] == self.guard['name']]
-            exp = [e for e in p.events if e['kind'] == 'call' and e.get('name') == 'expired']
-            if len(gid) != 1 or len(ctor) != 1 or len(exp) != 1:
-                sink.unsup('C04.BIND', 'CreateEpochGuard', self.loc(f), 'shape not recognised')
+            if len(gid) != 1 or len(ctor) != 1:
+                sink.unsup('C04.BIND', 'CreateEpochGuard', self.loc(f), 'shape not recognised (thread ID / guard construction)')
                 continue
             slot = ('addr', ('index', ('field', S('this'), self.slots), gid[0]['result']))
-            good = ctor[0]['args'] and ctor[0]['args'][0] == ('addr', ('field', slot, self.epf)) and exp[0]['obj'] == ('field', slot, self.hbf)
+            good = ctor[0]['args'] and ctor[0]['args'][0] == ('addr', ('field', slot, self.epf))
             sink.emit('C04.BIND', 'ok' if good else 'violated', 'the guard pins the slot of the caller\'s thread ID', self.loc(f, ctor[0]['line']),
                       'guard on %s' % show(ctor[0]['args'][0]) if ctor[0]['args'] else '')
-            t = self.cond_of(p, exp[0]['result'])
-            if t:
-                setg = [e for e in p.events if e['kind'] == 'call' and e.get('callee') == self.F['ep.Set']['key']]
-                asg = [e for e in p.events if e['kind'] == 'call' and e.get('name') == 'operator=' and e.get('obj') == ('field', slot, self.hbf)]
-                ghb = [e for e in p.events if e['kind'] == 'call' and e.get('name', '').endswith('IDManager::GetHeartBeat')]
-                good = len(setg) == 1 and setg[0]['obj'] == ('field', slot, self.epf) and setg[0]['args'][0] == ('addr', ('field', S('this'), self.glob)) and \
-                    len(asg) == 1 and ghb and asg[0]['args'] and asg[0]['args'][0] == ghb[0]['result'] and \
-                    setg[0]['seq'] < ctor[0]['seq'] and asg[0]['seq'] < ctor[0]['seq']
-                sink.emit('C04.BIND', 'ok' if good else 'violated', 'a slot with an expired heartbeat is re-bound before the guard enters', self.loc(f, exp[0]['line']),
-                          'SetGrobalEpoch(&global epoch) and heartbeat = GetHeartBeat() precede the guard construction')
+            # either the slot is (re-)bound to the caller on this path, or its stored heartbeat is known to be unexpired
+            # (then, by C15, it is the caller's own)
+            exp = [e for e in p.events if e['kind'] == 'call' and e.get('name') == 'expired' and e.get('obj') == ('field', slot, self.hbf) and e['seq'] < ctor[0]['seq']]
+            live = any(self.cond_of(p, e['result']) is False for e in exp)
+            setg = [e for e in p.events if e['kind'] == 'call' and e.get('callee') == self.F['ep.Set']['key'] and e['seq'] < ctor[0]['seq']]
+            asg = [e for e in p.events if e['kind'] == 'call' and e.get('name') == 'operator=' and e.get('obj') == ('field', slot, self.hbf) and e['seq'] < ctor[0]['seq']]
+            ghb = [e for e in p.events if e['kind'] == 'call' and e.get('name', '').endswith('IDManager::GetHeartBeat')]
+            rebound = len(setg) >= 1 and setg[-1]['obj'] == ('field', slot, self.epf) and setg[-1]['args'][0] == ('addr', ('field', S('this'), self.glob)) and \
+                len(asg) >= 1 and ghb and asg[-1]['args'] and asg[-1]['args'][0] == ghb[-1]['result']
+            sink.emit('C04.BIND', 'ok' if (live or rebound) else 'violated',
+                      'the slot is bound to the calling thread before the guard enters (%s)' % ('stored heartbeat unexpired' if live else 're-bound' if rebound else 'path'),
+                      self.loc(f, ctor[0]['line']),
+                      'SetGrobalEpoch(&global epoch) and heartbeat = GetHeartBeat() precede the guard' if rebound else 'heartbeat.expired() is false on this path' if live else
+                      'a guard is created on a slot whose stored heartbeat is neither known to be unexpired nor replaced by the caller\'s: a thread that reuses the ID of an '
+                      'exited thread keeps the dead heartbeat and the coordinator skips its pins')
         sets = self.paths(self.F['ep.Set'])
         good = len(sets) == 1 and any(e['kind'] == 'assign' and e['path'] == ('field', S('this'), self.curf) and e['value'] == S('p:' + self.F['ep.Set']['params'][0]['name']) for e in sets[0].events)
         sink.emit('C04.BIND', 'ok' if good else 'violated', 'SetGrobalEpoch binds the slot to the given epoch word', self.loc(self.F['ep.Set']), '')
@@ -388,6 +398,14 @@ class EpochRules:
                             (not calls or calls[0]['seq'] < min([e['seq'] for e in p.events if e['kind'] == 'assign'] or [10 ** 9]))
                     sink.emit('C04.GUARD', 'ok' if good else 'violated', '%s %s path leaves the epoch %s' % (sname(f['name']), 'owning' if own else 'empty', 'exactly once' if own else 'never'),
                               self.loc(f, p.ret_line), '')
+        # the epoch a guard reports is the pin itself
+        for f in self.fx.functions.values():
+            if f.get('record') == gname and f['short'] == 'GetProtectedEpoch':
+                for p in self.paths(f):
+                    r = p.ret
+                    good = isinstance(r, tuple) and r[0] == 'app' and r[1] == 'GetProtectedEpoch' and ('this->' + pf) in show(r)
+                    sink.emit('C04.GUARD', 'ok' if good else 'violated', 'EpochGuard::GetProtectedEpoch reports the pinned epoch of its slot', self.loc(f, p.ret_line),
+                              'returns %s' % norm(r)[:80] if good else 'returns %s, not the value the coordinator scans' % norm(r)[:80])
         copy = [m for m in self.guard['methods'] if m['kind'] in ('copy_ctor', 'copy_assign') and not m['deleted']]
         sink.emit('C04.GUARD', 'ok' if not copy else 'violated', 'EpochGuard is not copyable', '%s:%s' % (self.guard['file'], self.guard['line']), '')
 
